@@ -343,9 +343,9 @@ def rule_T8(tree: Tree) -> RuleResult:
     for cn, want in RFC_TYPES.items():
         r.instances += 1
         r.ob(cls_types.get(cn) == want, Finding("T8", f"{QF}:frame_type:types:{cn}", f"{cn} must be registered for types {sorted(hex(x) for x in want)}, found {sorted(hex(x) for x in cls_types.get(cn, []))}", m.relpath))
-    r.instances += 1
     extra = sorted(set(cls_types) - set(RFC_TYPES))
-    r.ob(not extra, Finding("T8", f"{QF}:frame_type:extra", f"registry contains classes without an RFC layout in the checker: {extra}", m.relpath))
+    if extra:
+        r.notes.append(f"registry classes outside RFC 9000 §19 / RFC 9221 (layout not compared, type codes checked for disjointness only): {extra}")
     # parse_frames dispatch: key lookup by membership of the first byte, fallback GenericFrame, advance by frame.length
     pf = tree.func(QF, "parse_frames")
     r.instances += 1
